@@ -53,7 +53,7 @@ Rows == {USeq(<<JCond, UStr(<<"k">>), Op("Eq"), X>>), USeq(<<JcondLc, UStr(<<"k"
          USeq(<<JCond, UStr(<<"k">>), Op("user"), ReadyC>>),
          USeq(<<JCond, UStr(<<"k">>)>>), USeq(<<JCond>>), USeq(<<JCond, UStr(<<"k">>), Op("Eq"), X, X>>),
          USeq(<<JCond, N, Op("Eq"), X>>), USeq(<<JCond, UStr(<<"k">>), X, X>>), USeq(<<JCond, UStr(<<"k">>), Op("nilop"), X>>),
-         USeq(<<JCond, UStr(<<"k">>), Op("op0"), X>>), USeq(<<JCond, UStr(<<"k">>), Op("emptytext"), X>>),
+         USeq(<<JCond, UStr(<<"k">>), Op("op0"), X>>), USeq(<<JCond, UStr(<<"k">>), Op("uslice"), X>>), USeq(<<JCond, UStr(<<"k">>), Op("uslice"), X, X>>), USeq(<<JCond, UStr(<<"k">>), Op("emptytext"), X>>),
          USeq(<<JCond, UStr(<<"k">>), Op("Eq"), TrNil>>), USeq(<<JCond, UStr(<<"k">>), Op("Eq"), USeq(<<>>)>>),
          USeq(<<JCond, UStr(<<"k">>), Op("Eq"), USeq(<<N>>)>>), USeq(<<JCond, UStr(<<>>), Op("Eq"), X>>),
          USeq(<<JCond, UStr(<<"k">>), Op("Eq"), TNil>>), USeq(<<JCond, UStr(<<"k">>), Op("Eq"), ZeroS>>),
